@@ -25,6 +25,9 @@ struct Built {
     /// `write_into_unchecked` on a buffer one word longer than announced (the length field follows
     /// the buffer): Some(Ok(image)) / Some(Err(())) when it unwound / None when not applicable
     unchecked: Option<Result<Vec<u8>, ()>>,
+    /// `write_into_unchecked` on a buffer of exactly the announced size, the way a caller uses it
+    /// after sizing (every shape, compounds included)
+    exact: Option<Result<Vec<u8>, ()>>,
 }
 
 fn build_and_write(plan: &Plan, key: u64) -> Built {
@@ -42,8 +45,33 @@ fn build_and_write_with(plan: &Plan, key: u64, probes: u64, ctors: u64) -> Built
 /// `fill`: previous contents of the output buffer.  The canonical build writes into zeros, the
 /// history build into 0xa5: bytes that leak from the buffer are not "what was configured".
 fn build_and_write_into(plan: &Plan, key: u64, probes: u64, ctors: u64, fill: u8) -> Built {
-    realise_with(plan, key, probes, ctors, |c| {
+    build_and_write_beside(plan, key, probes, ctors, fill, None)
+}
+
+/// With a bystander: a second builder (a sibling configuration of the same type) is built on the
+/// same thread while the first is alive, and its size queries and writes are interleaved with
+/// those of the first.  What another builder is asked is not part of what this one was configured
+/// with.
+fn build_and_write_beside(plan: &Plan, key: u64, probes: u64, ctors: u64, fill: u8, bystander: Option<&Plan>) -> Built {
+    match bystander {
+        None => realise_with(plan, key, probes, ctors, |c| observe(c, fill, None)),
+        Some(bp) => realise_with(bp, key, 0, 0, |by| realise_with(plan, key, probes, ctors, |c| observe(c, fill, Some(by)))),
+    }
+}
+
+fn observe(c: &Concrete<'_>, fill: u8, by: Option<&Concrete<'_>>) -> Built {
+    let disturb = |write: bool| {
+        if let Some(by) = by {
+            let _ = guarded_size(by);
+            if write {
+                let mut scratch = vec![0x33u8; 2048];
+                let _ = guarded_write(by, &mut scratch);
+            }
+        }
+    };
+    {
         let size = guarded_size(c);
+        disturb(true);
         let n = match &size {
             Some(WRes::Ok(n)) => (*n).min(1 << 20),
             _ => 600,
@@ -55,6 +83,7 @@ fn build_and_write_into(plan: &Plan, key: u64, probes: u64, ctors: u64, fill: u8
             _ => 0,
         };
         buf.truncate(used);
+        disturb(false);
         let unchecked = match (&size, &write) {
             (Some(WRes::Ok(n)), WRes::Ok(_)) if *n >= 4 && *n <= 4096 && n % 4 == 0 => {
                 let mut big = vec![fill; n + 4];
@@ -69,8 +98,22 @@ fn build_and_write_into(plan: &Plan, key: u64, probes: u64, ctors: u64, fill: u8
             }
             _ => None,
         };
-        Built { size, write, bytes: buf, unchecked }
-    })
+        let exact = match (&size, &write) {
+            (Some(WRes::Ok(n)), WRes::Ok(_)) if *n <= 4096 => {
+                let mut eb = vec![fill; *n];
+                match crate::guard::guarded(|| c.write_unchecked(&mut eb)) {
+                    Ok(Some(w)) => {
+                        eb.truncate(w.min(*n));
+                        Some(Ok(eb))
+                    }
+                    Ok(None) => None,
+                    Err(_) => Some(Err(())),
+                }
+            }
+            _ => None,
+        };
+        Built { size, write, bytes: buf, unchecked, exact }
+    }
 }
 
 /// Byte equality, except that the 8-byte entries of a FIR FCI are compared as a multiset.
@@ -230,6 +273,7 @@ fn append_check(spec: &Spec, key: u64, applicable: &mut bool) -> Option<(String,
 }
 
 struct Run {
+    beside: bool,
     probed: bool,
     alt_ctors: bool,
     wrap: usize,
@@ -277,14 +321,18 @@ fn run_case(spec: &Spec, tape: &mut Tape, key_canon: u64, key_var: u64) -> Resul
     let shape = fnv1a(FNV_INIT, format!("{}{}", shape_of(&variant), if probes != 0 { "+probed" } else { "" }).as_bytes());
     // constructor forms: `X::builder(..)` or the public sibling (`XBuilder::new` / `::default()`)
     let ctors = if tape.choose(3) == 2 { tape.value() as u64 | ((tape.value() as u64) << 32) } else { 0 };
+    // a bystander: a sibling builder alive on the same thread, its calls interleaved with ours
+    let beside = tape.choose(4) == 3;
+    let shape = if beside { fnv1a(shape, b"+beside") } else { shape };
+    let bystander = if beside { Some(plan_canonical(&spec.sibling())) } else { None };
     let a = build_and_write(&canonical, key_canon);
-    let b = build_and_write_into(&variant, key_var, probes, ctors, 0xa5);
+    let b = build_and_write_beside(&variant, key_var, probes, ctors, 0xa5, bystander.as_ref());
     let mut log = vec![format!("canonical: {canonical:?}"), format!("variant:   {variant:?}"), format!("canonical -> size {:?} write {:?} bytes {}", a.size, a.write, hex(&a.bytes)), format!("variant   -> size {:?} write {:?} bytes {}", b.size, b.write, hex(&b.bytes))];
     log.truncate(6);
     let kind = spec.kind_name();
     let pa = matches!(a.write, WRes::Panic(_)) || matches!(a.size, Some(WRes::Panic(_)));
     let pb = matches!(b.write, WRes::Panic(_)) || matches!(b.size, Some(WRes::Panic(_)));
-    let mut run = Run { probed: probes != 0, alt_ctors: ctors != 0, wrap, appended: false, violation: None, inconclusive: false, shape, log };
+    let mut run = Run { beside, probed: probes != 0, alt_ctors: ctors != 0, wrap, appended: false, violation: None, inconclusive: false, shape, log };
     if pa && pb {
         run.inconclusive = true;
         return Ok(run);
@@ -324,6 +372,20 @@ fn run_case(spec: &Spec, tape: &mut Tape, key_canon: u64, key_var: u64) -> Resul
             }
             _ => {}
         }
+    }
+    // the unchecked writer on an exactly sized buffer (sizing, then writing without a second check)
+    match (&a.exact, &b.exact) {
+        (Some(Ok(x)), Some(Ok(y))) => {
+            if !same_bytes(&spec, x, y, tail) {
+                run.violation = Some((format!("unchecked_exact_bytes_differ@{kind}"), format!("write_into_unchecked into exactly the announced size: canonical {} vs history-built {}", hex(x), hex(y))));
+                return Ok(run);
+            }
+        }
+        (Some(Ok(_)), Some(Err(()))) | (Some(Err(())), Some(Ok(_))) => {
+            run.violation = Some((format!("unchecked_exact_panic_differs@{kind}"), "write_into_unchecked into exactly the announced size unwinds for only one of the two builds".into()));
+            return Ok(run);
+        }
+        _ => {}
     }
     if matches!(a.write, WRes::Ok(_)) {
         let mut applicable = false;
@@ -506,6 +568,9 @@ impl Check for C20 {
         }
         if run.alt_ctors {
             ctx.stats.fault("constructor-forms", 1);
+        }
+        if run.beside {
+            ctx.stats.fault("bystander-builder", 1);
         }
         if run.wrap > 0 {
             ctx.stats.fault(["", "wrapper-packet-builder", "wrapper-one-member-compound", "wrapper-nested-non-last", "wrapper-nested-non-last"][run.wrap.min(4)], 1);
